@@ -153,6 +153,16 @@ def run(model: Model, rep: Report) -> None:
     fi = "".join(unparse(ia.node).split())
     r6.check("obj.index=self.indexself.index+=1" in fi and "forxinobj:self.run(x)" in fi and unparse(model.func(L + "IndexAssigner.__init__").node).count("index: int=0") + unparse(model.func(L + "IndexAssigner.__init__").node).count("index: int = 0") >= 1, site(ia), ia.qualname, "IndexAssigner hands out consecutive numbers from 0 in traversal order", why="changed")
 
+    # ---------------------------------------------------------------- R8
+    r8 = rep.rule("C08-R8", "SIBLING", "the line-level emptiness test that sets lines aside implies the box-level test that drops boxes", 2)
+    le = model.func(L + "LTTextLine.is_empty")
+    rets = [n for n in walk_no_nested(le.node) if isinstance(n, ast.Return)]
+    parts = [unparse(v).replace(" ", "") for v in (rets[0].value.values if rets and isinstance(rets[0].value, ast.BoolOp) and isinstance(rets[0].value.op, ast.Or) else ([rets[0].value] if rets else []))]
+    r8.check("super().is_empty()" in parts, site(le), le.qualname, "LTTextLine.is_empty is true whenever the line's box is degenerate (super().is_empty() or ...)", why=f"is_empty is `{' or '.join(parts)}`: a zero-extent line with visible text is grouped into a box, and group_textlines drops boxes whose box is degenerate - its glyphs vanish from the page")
+    gl = model.func(LC + ".group_textlines")
+    sgl = "".join(unparse(gl.node).split())
+    ce = model.func(L + "LTComponent.is_empty")
+    r8.check("ifnotbox.is_empty():yieldbox" in sgl and "returnself.width<=0orself.height<=0" in "".join(unparse(ce.node).split()), site(gl), gl.qualname, "group_textlines drops only boxes whose bounding box is degenerate (width <= 0 or height <= 0)", why="drop predicate changed")
     # ---------------------------------------------------------------- R7
     r7 = rep.rule("C08-R7", "NORMFORM", "the text of a container is the concatenation of its members' text in order", 1)
     gt = model.func(L + "LTTextContainer.get_text")
